@@ -38,7 +38,8 @@ def run(ctx):
                 "called f, partials with equal/different arguments} / add scalar / sum) over a shared source; (P) the same binary operation with swapped operands (a.op(b) / "
                 "b.op(a) for add, subtract, multiply, divide, power) and reduce(f) over the join of three actions in every pair of "
                 "orders; (H) one Payload object handed to two operations (reduce over 2 / 4 inputs, batched reduce with uneven "
-                "batches, map) and to both builds; (S) pairs of "
+                "batches, map) and to both builds; (U) unions (Cascade.from_actions, +, +=) of a generator source / a plain source with "
+                "the results of two programs whose nodes share a payload and read different outputs of one node; (S) pairs of "
                 "sources from those callables created by one or two from_source calls; (O) receiver in {A, A.map, D} x one or "
                 "two operations from {add, subtract, multiply, divide, power, join (match / no match / along x), broadcast} with "
                 "operands whose coordinates differ, and {map, add scalar, sum, sum keep_dim, mean, select, isel, stack, "
@@ -49,7 +50,8 @@ def run(ctx):
                 "payload identities (as they are at the end of the case, compared within and across cases) and before/after snapshots "
                 "(dims, coords, node identities, node payloads by value) of every pre-existing action",
         "clauses": ["NameInjective:different_lambdas", "NameInjective:different_callables_with_equal_name",
-                    "NameInjective:different_inputs", "NameInjective:different_static_arguments", "Deterministic",
+                    "NameInjective:different_inputs", "NameInjective:different_static_arguments",
+                    "NameInjective:union_lost_or_rewired_a_computation", "Deterministic",
                     "OperandsIntact:<operation>", "raised", "program_not_executed", "harness_error"],
     })
     for c in cases[:: max(1, len(cases) // 4)][:4]:
